@@ -60,6 +60,10 @@ def run_unphase(vcf_path, outfile):
                 if call["GT"] is not None and all(allele is not None for allele in call["GT"]):
                     call["GT"] = sorted(call["GT"])
                 call.phased = False
+            # Contigs need not be declared in the VCF header. htslib adds undeclared ones to
+            # the reader's header while parsing, but the writer got its copy before that
+            if record.contig not in writer.header.contigs:
+                writer.header.contigs.add(record.contig)
             writer.write(record)
 
 
